@@ -39,6 +39,7 @@ import r46_trivial
 import r47_reshape
 import r48_boundary
 import r49_accumulator
+import r50_guessspec
 import r06_validate
 import r07_cache
 import r08_toporder
@@ -219,6 +220,10 @@ def r20b(ctx, prop):
 
 def r49(ctx, prop):
     return r49_accumulator.run(ctx.F())
+
+
+def r50(ctx, prop):
+    return [r50_guessspec.run(ctx.F())]
 
 
 def r43(ctx, prop):
@@ -471,7 +476,7 @@ PROPERTY_RULES = {
     "C03": [r6, r17, r4, r5, r25, r24, r26, r31, r40, r43, r44],
     "C04": [r4, r16, r25, r24, r26, r31, r10_selconst, r40, r46],
     "C05": [r4, r5, r16, r25, r24, r26, r31, r10_selconst, r39, r40, r43, r44, r46],
-    "C06": [r4, r1_all, r21, r25, r24, r26, r28, r31, r39, r40, r20b],
+    "C06": [r4, r1_all, r21, r25, r24, r26, r28, r31, r39, r40, r20b, r50],
     "C07": [r5, r4, r25, r24, r26, r31, r10_selconst, r40, r43, r46],
     "C18": [r4, r16, r25, r24, r26, r35, r39, r40, r42, r44, r45],
 }
